@@ -194,7 +194,7 @@ Definition act_video : event_action :=
 Definition act_break : event_action :=
   fun start params _ st =>
     match pn_f64 start, pn_f64 params with
-    | Some s, Some e => (set_ev_breaks st (ev_breaks st ++ [mkBreak s (D.max s e)]), Ok)
+    | Some s, Some e => (set_ev_breaks st (ev_breaks st ++ [mkBreak s (if D.lt e s then s else e)]), Ok)
     | _, _ => (st, Rejected)
     end.
 Definition act_sprite : event_action :=
